@@ -5,6 +5,7 @@ package expr
 import (
 	"encoding/json"
 	"github.com/grindlemire/go-lucene/internal/verifspec"
+	"strconv"
 )
 
 // Contracts of package expr (properties C10, C13, C01, C12, C06).  Directive
@@ -713,10 +714,17 @@ func IsFloat64Val(a any) bool { _, ok := a.(float64); return ok }
 //@   ensures[other-values-untouched] !IsFloat64Val(in) ==> out == in
 //@   ensures[int-only-if-lossless] IsFloat64Val(in) ==> verifspec.Same(out, in) || IntBack(out, Float64Of(in))
 
+// JSONIsInt / JSONIsFloat: the raw JSON text reads as a base-10 int / as a 64-bit decimal number.
+func JSONIsInt(in []byte) bool   { _, err := strconv.Atoi(string(in)); return err == nil }
+func JSONIsFloat(in []byte) bool { _, err := strconv.ParseFloat(string(in), 64); return err == nil }
+func JSONInt(in []byte) int      { v, _ := strconv.Atoi(string(in)); return v }
+
 //@ func unmarshalLiteral
 //@   props C13 C12
 //@   ensures e != nil
 //@   ensures err == nil ==> DValueLeaf(e)
+//@   ensures[ints-decode-as-ints] JSONIsInt(in) ==> err == nil && e.Op == Literal && e.Left == any(JSONInt(in))
+//@   ensures[every-json-number-decodes] JSONIsFloat(in) ==> err == nil && e.Op == Literal
 
 // JSONOf: the bytes encoding/json writes for a value.
 func JSONOf(a any) []byte { b, _ := json.Marshal(a); return b }
